@@ -6,6 +6,8 @@
 (*   kind "step"  -- projection after one scheduling step (or the final one,  *)
 (*                   final = TRUE, with the reads made at rest)               *)
 (*   kind "free"  -- final state of a free-running (really parallel) run      *)
+(*   kind "fread" -- one Read made while a free-running run was in progress:  *)
+(*                   v, and hi = the Incs begun from that stack at its return *)
 (*   kind "fsnap" -- one Names()/Counters() result of a free-running run:     *)
 (*                   ids, lo (stacks whose first Inc had returned before the  *)
 (*                   call), hi (stacks an Inc had begun from at its return),  *)
@@ -38,11 +40,18 @@ FreeSnapAt(x) == x.kind = "fsnap" => /\ NoDupSeq(x.ids)
                                      /\ ToSet(x.lo) \subseteq ToSet(x.ids)
                                      /\ ToSet(x.ids) \subseteq ToSet(x.hi)
                                      /\ IsPrefix(x.ids, x.fin)
+(* a read made while increments are in flight never reports more than has been begun (G3) *)
+FreeReadAt(x) == x.kind = "fread" => x.v <= x.hi
 (* ---- G2 ---- *)
 BoundsAt(x) == IsState(x) => \A c \in 1..x.nc : x.done[c] <= P(x, c) + x.mem[c] /\ P(x, c) + x.mem[c] <= x.begun[c]
 QuiescentAt(x) == (IsState(x) /\ x.final) => \A c \in 1..x.nc : /\ P(x, c) + x.mem[c] = x.begun[c]
                                                                /\ (x.cur # 0 => x.mem[c] = 0)
                                                                /\ (x.cur = 0 => P(x, c) = 0)
+(* the registration list: every counter on which an increment has completed is reachable from the head *)
+(* (it is how Open and every rotation find the counters)                                              *)
+RECURSIVE ReachFrom(_, _, _)
+ReachFrom(x, c, n) == IF c < 1 \/ c > x.nc \/ n = 0 THEN {} ELSE {c} \cup ReachFrom(x, x.nxt[c], n - 1)
+ListedAt(x) == x.kind = "step" => \A c \in 1..x.nc : x.done[c] > 0 => c \in ReachFrom(x, x.head, x.nc + 1)
 NoAlienAt(x) == IsState(x) => x.alien = 0 /\ x.malformed = 0
 PtrLiveAt(x) == x.kind = "step" => \A c \in 1..x.nc : x.hp[c] # -2 /\ (x.hp[c] >= 1 => x.hp[c] \notin ToSet(x.closed))
 MonotoneAt(i) == (i > 1 /\ Trace[i].kind = "step" /\ Trace[i - 1].kind = "step" /\ Trace[i].run = Trace[i - 1].run)
@@ -63,13 +72,14 @@ ReadStackAt(x) == (IsState(x) /\ x.reads) =>
 ReadNoEffectAt(x) == (IsState(x) /\ x.reads) => x.diskAfterRead = x.disk /\ x.memAfterRead = x.mem
 
 Clauses == <<"NoDup", "KnownStacks", "DoneKnown", "AppendOnly", "Snap", "NamesAgree", "FreeSnap", "Bounds", "Quiescent",
-             "NoAlien", "PtrLive", "Monotone", "Read", "ReadStack", "ReadNoEffect">>
+             "NoAlien", "PtrLive", "Monotone", "Read", "ReadStack", "ReadNoEffect", "FreeRead", "Listed">>
 Holds(i, cl) == LET x == Trace[i] IN
   CASE cl = "NoDup" -> NoDupAt(x) [] cl = "KnownStacks" -> KnownStacksAt(x) [] cl = "DoneKnown" -> DoneKnownAt(x)
     [] cl = "AppendOnly" -> AppendOnlyAt(i) [] cl = "Snap" -> SnapAt(x) [] cl = "NamesAgree" -> NamesAgreeAt(x)
     [] cl = "FreeSnap" -> FreeSnapAt(x) [] cl = "Bounds" -> BoundsAt(x) [] cl = "Quiescent" -> QuiescentAt(x)
     [] cl = "NoAlien" -> NoAlienAt(x) [] cl = "PtrLive" -> PtrLiveAt(x) [] cl = "Monotone" -> MonotoneAt(i)
     [] cl = "Read" -> ReadAt(x) [] cl = "ReadStack" -> ReadStackAt(x) [] cl = "ReadNoEffect" -> ReadNoEffectAt(x)
+    [] cl = "FreeRead" -> FreeReadAt(x) [] cl = "Listed" -> ListedAt(x)
 
 (* all failing (line, clause) pairs at once, printed for the driver *)
 Bad == {p \in (1..Len(Trace)) \X ToSet(Clauses) : ~Holds(p[1], p[2])}
